@@ -191,7 +191,7 @@ type q02 struct {
 	rev  int
 }
 
-var q02Alph = [14]int{3, 4, 3, 3, 3, 2, 2, 2, 2, 3, 9, 2, 3, 2}
+var q02Alph = [14]int{3, 4, 3, 3, 3, 2, 2, 2, 2, 3, 9, 2, 3, 3}
 var q02Names = [14]string{"id", "body", "connset", "qset", "params", "secret", "quota", "optquota", "inituser", "external", "input", "span", "input2", "stream"}
 
 func (k q02) id() string {
@@ -294,7 +294,16 @@ func body02(k q02) Body {
 		for _, ic := range input {
 			q.Input = append(q.Input, proto.InputColumn{Name: ic.name, Data: ic.mk()})
 		}
-		if len(input) > 0 {
+		if len(input) > 0 && k.f[13] == 2 {
+			// input columns present but without rows (an INSERT of nothing): one block with the
+			// columns and zero rows, then the terminator
+			empty := make([]inCol, len(input))
+			for i, in := range q.Input {
+				in.Data.(proto.Resettable).Reset()
+				empty[i] = inCol{name: input[i].name, typ: input[i].typ}
+			}
+			want = append(want, blk{"", empty}, blk{"", nil})
+		} else if len(input) > 0 {
 			want = append(want, blk{"", input})
 			if k.f[13] == 1 {
 				// streamed: a second round refills the same column objects (Reset + Append of other
@@ -456,7 +465,7 @@ func body02(k q02) Body {
 
 // C02 — everything the client writes for a query is a well-formed packet sequence.
 func C02(c *vk.Ctx) {
-	c.Rule("queries with <= 2 (thorough 4) fields deviating from a base query over per-field alphabets (query id given / generated / 300 bytes; body short / empty / 70 KiB / non-UTF-8; 0..2 connection settings; 0..2 query settings incl. an override and an empty value; 0..2 parameters; secret; query quota key; connection quota key (addendum); initial user; external data none / default table / named table with 2 columns; input of 1..3 columns, sent as one block or streamed in two rounds through OnInput (Reset + refill of the same column objects), over 32 column types and two large pseudo-random blocks (40000 x UInt64 = 320 KB, 3000 x 64-byte strings) (integers to 256 bits, floats, Bool, UUID, IPv4/6, dates, DateTime64, Decimal, FixedString, name-based enums that must adopt the server's definition, JSON, Point, Nullable, LowCardinality, nested arrays, Array(LowCardinality), Map(String, Array), Tuple); OpenTelemetry span context) x {Disabled, None, LZ4, LZ4HC, ZSTD} at the newest revision, and queries with <= 1 deviation x every revision of the threshold-neighbour set from 54420 up x {Disabled, LZ4}. Each case is one execution of the real Connect + Do (default schedule); the recorded client bytes are compared with the reference encoding (Query packet byte for byte; blocks by reference decoding incl. frame checksum). distinct_nontrivial = cases.")
+	c.Rule("queries with <= 2 (thorough 4) fields deviating from a base query over per-field alphabets (query id given / generated / 300 bytes; body short / empty / 70 KiB / non-UTF-8; 0..2 connection settings; 0..2 query settings incl. an override and an empty value; 0..2 parameters; secret; query quota key; connection quota key (addendum); initial user; external data none / default table / named table with 2 columns; input of 1..3 columns, sent as one block, streamed in two rounds through OnInput (Reset + refill of the same column objects) or sent without rows, over 32 column types and two large pseudo-random blocks (40000 x UInt64 = 320 KB, 3000 x 64-byte strings) (integers to 256 bits, floats, Bool, UUID, IPv4/6, dates, DateTime64, Decimal, FixedString, name-based enums that must adopt the server's definition, JSON, Point, Nullable, LowCardinality, nested arrays, Array(LowCardinality), Map(String, Array), Tuple); OpenTelemetry span context) x {Disabled, None, LZ4, LZ4HC, ZSTD} at the newest revision, and queries with <= 1 deviation x every revision of the threshold-neighbour set from 54420 up x {Disabled, LZ4}. Each case is one execution of the real Connect + Do (default schedule); the recorded client bytes are compared with the reference encoding (Query packet byte for byte; blocks by reference decoding incl. frame checksum). distinct_nontrivial = cases.")
 	run := func(k q02, group string) {
 		id := k.id()
 		if !c.Next(id) {
